@@ -53,6 +53,20 @@ def import_module_from_qualified_name(qualified_name: str) -> Any:
         module = import_module(module_path[0])
         return getattr(module, module_path[1])
     except ImportError as e:
+        # "pkg.mod.Outer.Inner" names a nested class (written from __qualname__): import the
+        # longest importable prefix and resolve the remaining names as attributes
+        parts = qualified_name.split(".")
+        for i in range(len(parts) - 2, 0, -1):
+            try:
+                obj = import_module(".".join(parts[:i]))
+            except ImportError:
+                continue
+            try:
+                for name in parts[i:]:
+                    obj = getattr(obj, name)
+                return obj
+            except AttributeError:
+                break
         raise ImportError(f"Failed to import module {module_path[0]}: {e}")
     except AttributeError as e:
         raise AttributeError(
